@@ -153,6 +153,51 @@ pub fn run(c: &Case) -> Verdict {
     pass(want >= 2 && n >= 3, labels)
 }
 
+// ---------------------------------------------------------------------------------------------
+// long lists: many copies / complements of a few base functions (more than 4096 words in total)
+
+#[derive(Clone, Debug, Hash, Serialize, Deserialize)]
+pub struct LongCase {
+    pub fam: Fam,
+    pub n: usize,
+    pub base: Vec<Tt>,
+    /// (index into base, complemented) for every further member of the list
+    pub pattern: Vec<(usize, bool)>,
+}
+
+fn strategy_long(_t: Tier) -> BoxedStrategy<LongCase> {
+    // total size 4100 .. 9000 words: list length = that many words / words per table
+    (arb_fam(), prop_oneof![2 => 8usize..=10, 3 => 11usize..=12, 1 => Just(13usize)], 1usize..=3, 4100usize..=9000)
+        .prop_flat_map(|(fam, n, nb, total)| {
+            let (fam, n) = if n > fam.max_n() { (Fam::Dyn, n) } else { (fam, n) };
+            let len = total / crate::model::words_for(n) + 1;
+            (vec(arb_member(n), nb), vec((0usize..3, any::<bool>()), len)).prop_map(move |(base, pattern)| LongCase { fam, n, base, pattern })
+        })
+        .boxed()
+}
+
+fn run_long(c: &LongCase) -> Verdict {
+    let n = c.n;
+    let mut list: Vec<Tt> = c.base.clone();
+    for (i, neg) in &c.pattern {
+        let t = &c.base[i % c.base.len()];
+        list.push(if *neg { t.not() } else { t.clone() });
+    }
+    let mut ts: Vec<T> = Vec::new();
+    for f in &list {
+        match load(c.fam, f) {
+            Ok(x) => ts.push(x),
+            Err(_) => return pass(false, vec!["skipped:unloadable".into()]),
+        }
+    }
+    // copies and complements add no node to the shared complement-edge diagram
+    let want = shared_size(&c.base);
+    let got = lib!("bdd_complexity", lib_count(c.fam, n, &ts));
+    let show = |fs: &[Tt]| fs.iter().map(|t| t.short()).collect::<Vec<_>>().join(", ");
+    ensure!(got == want, "long-list", "{}::bdd_complexity of a list of {} tables of {} variables ({} words) made of copies and complements of [{}] = {} but the shared diagram of the base functions has {} non-literal nodes", c.fam.label(), list.len(), n, list.len() * crate::model::words_for(n), show(&c.base), got, want);
+    pass(want >= 2, vec![format!("fam:{}", c.fam.label()), format!("n:{}", n), format!("base:{}", c.base.len())])
+}
+
 fn enumerate(t: Tier, shard: usize, nshards: usize, f: &mut dyn FnMut(Case) -> bool) {
     let mut sc = ShardCounter::new(shard, nshards);
     for fam in [Fam::Dyn, Fam::Static] {
@@ -204,6 +249,15 @@ pub fn def() -> PropDef {
             exhaustive: Some(enumerate),
             exhaustive_note: "empty list all n; all single functions n<=3/4; all ordered pairs n<=2/3; both families",
             run,
+        }),
+        Box::new(Sub {
+            name: "longlist",
+            rule: "lists of more than 4096 words in total (4100..9000): 1..3 base functions of n in 8..=13 (13: Lut only) followed by copies and complements of them; the count must equal the reference count of the base functions alone. Non-trivial = reference count >= 2.",
+            strategy: strategy_long,
+            cases: (300, 6000),
+            exhaustive: None,
+            exhaustive_note: "",
+            run: run_long,
         })],
     }
 }
